@@ -6,7 +6,7 @@
     pointer/size are the real offsets, the string-table size field is its real size.  The
     independent reader Spec/CoffRead.v is run on gosk's own objects on every check. *)
 From Coq Require Import List ZArith String Bool.
-From Gosk Require Import Base.Bytes Model.Ast Model.Eval Model.Coff Lemmas.CoffLemmas.
+From Gosk Require Import Base.Bytes Model.Ast Model.Eval Model.Coff Spec.CoffRead Lemmas.CoffLemmas Lemmas.CoffRoundTrip.
 Import ListNotations.
 Local Open Scope Z_scope.
 
@@ -35,3 +35,30 @@ Print Assumptions C08_records.
 Theorem C08_header_is_140 : forall t n, Datatypes.length (hdr_of t n) = 140%nat.
 Proof. exact hdr_length. Qed.
 Print Assumptions C08_header_is_140.
+
+(** read . write: the independent reader Spec/CoffRead.v accepts EVERY object the writer model produces - for every code
+    section, source file name, GLOBAL list (names non-empty and NUL-free) and symbol table, as long as the file stays below
+    4 GiB (the format's 32-bit fields) - finds it well-formed in the three-section layout (machine 014Ch, record count =
+    NumberOfSymbols, string table ending the file exactly, .text raw data between the headers and the symbol table), reads
+    back .text byte for byte, and reads the symbol table back as the records written, every name resolved - inline or through
+    the string table - to the name that was declared. *)
+Theorem C08_read_write : forall text srcfile globals symtab,
+  let f := coff_write text srcfile globals symtab in
+  let entries := entries_of text srcfile globals symtab in
+  let strtab := strtab_of globals symtab in
+  Forall name_ok globals -> zlen f < 2 ^ 32 ->
+  exists o,
+    coff_read f = Some o /\ wellformed f o = true /\ text_of f o = Some text
+    /\ o_symbols o = map (sym_of (fun e => name_in strtab (se_name e))) entries
+    /\ Forall2 (gentry_ok symtab strtab) (fst (global_entries symtab globals ([], []))) globals.
+Proof. exact coff_read_write. Qed.
+Print Assumptions C08_read_write.
+
+(* non-vacuity: a long name goes through the string table and comes back *)
+Example C08_read_write_example :
+  let f := coff_write [195] [97] ["_io_hlt"; "_a_rather_long_name"]%string [("_io_hlt", 0); ("_a_rather_long_name", 1)]%string in
+  match coff_read f with
+  | Some o => map y_name (skipn 4 (o_symbols o)) = map bytes_of_string ["_io_hlt"; "_a_rather_long_name"]%string /\ wellformed f o = true
+  | None => False
+  end.
+Proof. vm_compute. split; reflexivity. Qed.
